@@ -309,6 +309,14 @@ pub fn run_unpolled(case: &Case, plan: &Plan) -> Vec<Violation> {
         CaseFn::Async(f) => *f,
         _ => return vec![],
     };
+    // first outside any runtime: building the future must not even look for one
+    let built = catch_unwind(AssertUnwindSafe(|| {
+        let fut = f();
+        drop(fut);
+    }));
+    if let Err(p) = built {
+        return vec![viol("lazy", format!("building the macro's future outside a runtime (without polling it) panicked: {}", panic_message(&p)))];
+    }
     let rt = tokio::runtime::Builder::new_current_thread().build().unwrap();
     let local = tokio::task::LocalSet::new();
     local.block_on(&rt, async move {
